@@ -29,8 +29,8 @@ man = {
     'engines': [
         {'name': 'ksym', 'path': 'ksym/', 'serves_properties': sorted(p for p in REGISTRY if REGISTRY[p].get('engine', 'ksym') == 'ksym'),
          'kind_free_text': 'proxy-based dynamic symbolic execution of the real klepto code on CPython; branch feasibility and property obligations decided by z3 (QF_UF+LIA); replay-DFS to closure; counterexamples replayed on un-stubbed code'},
-        {'name': 'crosshair', 'path': 'harness/kernels_crosshair.py', 'serves_properties': sorted(p for p in REGISTRY if 'crosshair' in REGISTRY[p].get('engine', '')),
-         'kind_free_text': 'CrossHair 0.0.110 (symbolic execution of Python with z3) on pure string kernels'},
+        {'name': 'crosshair', 'path': 'harness/kernels_crosshair.py', 'serves_properties': ['C03'],
+         'kind_free_text': 'CrossHair 0.0.110 (symbolic execution of Python with z3) on the pure string kernels of dir_archive/_sqlname with symbolic str keys (C03-A), run by tools/kernels.py as the first step of ./check C03; counterexamples replayed on a real dir_archive'},
     ],
     'checks': checks,
     'not_applicable': NOT_APPLICABLE,
